@@ -6,6 +6,7 @@ import (
 	"strconv"
 	"strings"
 	"testing"
+	"unicode/utf8"
 
 	"pgregory.net/rapid"
 )
@@ -210,12 +211,112 @@ func TestBlankEdges(t *testing.T) {
 	}
 }
 
+// TestQuotedPaths: the option added for paths git prints in C notation. QuoteC against hand-checked output of
+// git 2.39; every drawn history is built with real git and compared with simulation and emulator (numstat and
+// summary lines, ls-tree); every pool entry is valid UTF-8 and does need the quoting. With the option off the
+// generator draws exactly what it drew before.
+func TestQuotedPaths(t *testing.T) {
+	for in, want := range map[string]string{
+		"plain file.txt": "plain file.txt", "sp\u00e4t.txt": `"sp\303\244t.txt"`, "\U0001F600.md": `"\360\237\230\200.md"`, `q"uote.txt`: `"q\"uote.txt"`,
+		`back\slash`: `"back\\slash"`, `\303\244`: `"\\303\\244"`, "t\tb/x": `"t\tb/x"`, "new\nline": `"new\nline"`, "ctl\x01\x7f\x1b.txt": `"ctl\001\177\033.txt"`,
+		"a\a\b\v\f\r": `"a\a\b\v\f\r"`, "d\u00e4/f.txt ": `"d\303\244/f.txt "`,
+	} {
+		if got := QuoteC(in); got != want {
+			t.Errorf("QuoteC(%q) = %s, want %s", in, got, want)
+		}
+	}
+	if got, want := PrintRenameC("d\u00e4/f.txt", "d\u00e4/g.txt"), `"d\303\244/f.txt" => "d\303\244/g.txt"`; got != want {
+		t.Errorf("PrintRename = %s, want %s", got, want)
+	}
+	if got, want := PrintRenameC("a/plain.txt", "a/pl\u00e4n.txt"), `a/plain.txt => "a/pl\303\244n.txt"`; got != want {
+		t.Errorf("PrintRename = %s, want %s", got, want)
+	}
+	for _, pool := range [][]string{dirPoolQuoted, namePoolQuoted, compPoolQuoted} {
+		for _, n := range pool {
+			if !utf8.ValidString(n) || QuoteC(n) == n || strings.Contains(n, "\x00") {
+				t.Errorf("pool entry %q", n)
+			}
+		}
+	}
+	base, err := os.MkdirTemp("", "ggen-quoted-")
+	if err != nil {
+		t.Fatal(err)
+	}
+	defer os.RemoveAll(base)
+	o := AllFeatures
+	o.LeadingBlankPaths, o.ToolSubjects, o.SquashMerges, o.ExecFiles, o.ModeChanges, o.AffixNames, o.BulkAdds = true, true, true, true, true, true, true
+	o.TrailingBlankPaths, o.BlankRunPaths, o.EmptySubjects = true, true, true
+	off := o
+	o.QuotedPaths = true
+	n := 120
+	if v, err := strconv.Atoi(os.Getenv("GGEN_N")); err == nil {
+		n = v
+	}
+	g := rapid.Custom(func(t *rapid.T) History { return Gen(t, o) })
+	counts := map[string]int{}
+	for i := 1; i <= n; i++ {
+		h := g.Example(i)
+		sim, err := Simulate(h)
+		if err != nil {
+			t.Fatalf("seed %d: %v", i, err)
+		}
+		feats := Features(sim)
+		quoted := false
+		for _, f := range feats {
+			counts[f]++
+			quoted = quoted || f == "path_c_quoted"
+		}
+		if !quoted && i > 30 {
+			continue // the histories without such a path are the old ones: a sample of them is enough
+		}
+		repo, err := Build(base, sim)
+		if err != nil {
+			t.Fatalf("seed %d: %v", i, err)
+		}
+		err = Validate(sim, repo)
+		repo.Remove()
+		if err != nil {
+			t.Fatalf("seed %d: %v", i, err)
+		}
+		counts["built with git"]++
+	}
+	for _, k := range []string{"path_c_quoted_create", "path_c_quoted_delete", "path_c_quoted_modify", "rename_c_quoted_both_paths", "rename_c_quoted_old_path_only",
+		"rename_c_quoted_new_path_only", "path_non_ascii", "path_double_quote", "path_backslash", "path_tab", "path_line_break", "path_other_control_character"} {
+		if counts[k] == 0 {
+			t.Errorf("feature %s never drawn in %d histories", k, n)
+		}
+	}
+	var keys []string
+	for k := range counts {
+		keys = append(keys, k)
+	}
+	sort.Strings(keys)
+	for _, k := range keys {
+		if strings.Contains(k, "quoted") || strings.HasPrefix(k, "path_") || k == "built with git" {
+			t.Logf("%-60s %d", k, counts[k])
+		}
+	}
+	// option off: the old generator, draw for draw (no path that needs quoting)
+	for i := 1; i <= 40; i++ {
+		a := rapid.Custom(func(t *rapid.T) History { return Gen(t, off) }).Example(i)
+		for _, c := range a.Commits {
+			for _, op := range c.Ops {
+				for _, p := range []string{op.Path, op.To} {
+					if QuoteC(p) != p {
+						t.Fatalf("seed %d: path %q with the option off", i, p)
+					}
+				}
+			}
+		}
+	}
+}
+
 // TestNamesAndDirectoriesDisjoint: no file name of the pools is a directory component of the pools, also not
 // after blanks have been appended to either (twins), so that the two lanes of a history never hold a file and
 // a directory of the same name.
 func TestNamesAndDirectoriesDisjoint(t *testing.T) {
 	files := map[string]string{}
-	for _, pool := range [][]string{namePool, namePoolNum, namePoolAffix, namePoolBlank, namePoolTrail, namePoolOnlyBlank, namePoolRun} {
+	for _, pool := range [][]string{namePool, namePoolNum, namePoolAffix, namePoolBlank, namePoolTrail, namePoolOnlyBlank, namePoolRun, namePoolQuoted} {
 		for _, n := range pool {
 			files[strings.TrimRight(n, " ")] = n
 			if strings.TrimRight(n, " ") == "" && len(n) > 2 {
@@ -223,7 +324,7 @@ func TestNamesAndDirectoriesDisjoint(t *testing.T) {
 			}
 		}
 	}
-	for _, pool := range [][]string{dirPool, dirPoolNumeric, dirPoolBlank, dirPoolTrail, dirPoolOnlyBlank, dirPoolRun, compPool, compPoolTrail, compPoolOnlyBlank} {
+	for _, pool := range [][]string{dirPool, dirPoolNumeric, dirPoolBlank, dirPoolTrail, dirPoolOnlyBlank, dirPoolRun, compPool, compPoolTrail, compPoolOnlyBlank, dirPoolQuoted, compPoolQuoted} {
 		for _, d := range pool {
 			for _, comp := range strings.Split(d, "/") {
 				if comp == "" {
